@@ -204,7 +204,7 @@ Definition finished_with (p : pipe) (ret : Z) (out : list byte) : bool :=
   match p with PRun _ (Finished (VInt z) s) => (z =? ret)%Z && bytes_eq (rev (st_out s)) out | _ => false end.
 Definition trapped_with (p : pipe) (code : N) (out : list byte) : bool :=
   match p with PRun _ (VmError e s) => (e =? code) && bytes_eq (rev (st_out s)) out | _ => false end.
-Ltac cfg_cases H := match goal with c : cfg |- _ => destruct c as [a b c0 d e f g h i]; simpl in H; subst; destruct a, b, c0 end.
+Ltac cfg_cases H := match goal with c : cfg |- _ => destruct c as [a b c0 d e f g h i]; simpl in H; subst; repeat match goal with x : bool |- _ => destruct x end end.
 (* pinned VM: the read yields void, "void\n" is printed, main returns 0 *)
 Lemma w_at_continues c : fx_arr c = false -> finished_with (pipeline c (w_at 5) 100) 0 [118; 111; 105; 100; 10] = true.
 Proof. intros H; cfg_cases H; vm_compute; reflexivity. Qed.
